@@ -160,6 +160,42 @@ fn payload(k: usize) -> Object {
 
 /// Apply a chain of edits through IncrementalDocument; returns the final bytes and the model, or
 /// an error message. `case` lists the payload indices so the chain can be replayed.
+fn run_fresh_incremental(constructor: usize, table: bool) -> Result<(), String> {
+    let mut inc = match constructor {
+        0 => IncrementalDocument::new(),
+        1 => IncrementalDocument::default(),
+        _ => IncrementalDocument::create_from(Vec::new(), Document::new()),
+    };
+    inc.new_document.version = "1.5".into();
+    util::set_xref(&mut inc.new_document, table);
+    let mut model: BTreeMap<ObjectId, Object> = BTreeMap::new();
+    for k in 0..4usize {
+        let o = payload(k);
+        let id = inc.new_document.add_object(o.clone());
+        model.insert(id, o);
+    }
+    let root = *model.keys().next().unwrap();
+    inc.new_document.trailer.set("Root", Object::Reference(root));
+    let mut out = vec![];
+    match util::guard(|| inc.save_to(&mut out)) {
+        Ok(Ok(())) => {}
+        Ok(Err(e)) => return Err(format!("save error: {}", e)),
+        Err(p) => return Err(p),
+    }
+    let opts = strict::Options { require_binary_mark: true };
+    let d = util::guard(|| strict::read(&out, &opts)).map_err(|p| format!("strict reader bug: {}", p))??;
+    if d.bytes_accounted != out.len() {
+        return Err(format!("accounted {} of {} bytes", d.bytes_accounted, out.len()));
+    }
+    if d.version != "1.5" {
+        return Err(format!("version: expected \"1.5\" got {:?}", d.version));
+    }
+    if let Some(m) = cmp::diff_objects(&model, &d.objects) {
+        return Err(m);
+    }
+    Ok(())
+}
+
 fn run_chain(base: &Document, table: bool, chain: &[(Edit, usize)]) -> Result<(), String> {
     let bytes = util::save_bytes(base, table)?;
     run_chain_from(bytes, base, chain)
@@ -302,6 +338,16 @@ fn incremental(run: &Run) {
             }
         }
     });
+    // an IncrementalDocument that has NO previous revision (new / default): its save is the whole file and must be
+    // a valid one-revision file. (create_from(empty bytes, empty Document) claims a previous revision that does not
+    // exist and gets a /Prev 0 - a misuse of that constructor, not explored.)
+    for (ci, table) in [(0usize, true), (0, false), (1, true), (1, false)] {
+        run.eval(1);
+        run.add("files_incremental_without_previous", 1);
+        if let Err(m) = run_fresh_incremental(ci, table) {
+            run.fail(None, json!({"kind": "fresh_incremental", "constructor": ci, "table": table}), &m, "an incremental document without a previous revision saves as a valid file (header, binary comment, one revision)");
+        }
+    }
     run.sample(json!({"part": "incremental", "base": 1, "table": false, "chain": [{"replace": [0, 2], "add": 2, "seed": 11}, {"replace": [1], "add": 1, "seed": 105}]}));
 }
 
@@ -355,6 +401,7 @@ fn replay(run: &Run, path: &std::path::Path) -> ! {
             table,
             strict_reader,
         ),
+        Some("fresh_incremental") => run_fresh_incremental(case["constructor"].as_u64().unwrap() as usize, table).err(),
         Some("resave") => {
             let bases = docgen::start_docs();
             let base = &bases[case["base"].as_u64().unwrap() as usize];
